@@ -25,7 +25,8 @@ THEOREMS = [
     'Ndn.C17.gen_schemas', 'Ndn.C17.command_names_prefix', 'Ndn.C17.rib_command_names_prefix',
     'Ndn.C17.command_signed_v2', 'Ndn.C17.response_roundtrip_bytes', 'Ndn.C17.legacy_command_name',
     # the composed model Ndn.NfdBytes.runW: reply bytes -> state machine -> command wires
-    'Ndn.C17.emitted_command_accepted', 'Ndn.C17.every_emitted_wire_accepted', 'Ndn.C17.wire_timestamps_strict',
+    'Ndn.C17.emitted_command_accepted', 'Ndn.C17.every_emitted_wire_accepted', 'Ndn.C17.one_wire_per_call',
+    'Ndn.C17.wire_timestamps_strict',
     'Ndn.C17.answers200_wire200', 'Ndn.C17.reply_wire_decides', 'Ndn.C17.reply_bytes_never_raise',
     'Ndn.C17.forwarder_answer_decides', 'Ndn.C17.reply_decode_errors_are_caught',
 ]
